@@ -16,18 +16,19 @@ import (
 )
 
 type Obligation struct {
-	Name   string
-	Kind   string
-	Props  []string
-	Func   string
-	Pos    string
-	Desc   string
-	NFacts int
-	Goal   string
-	Show   []string
-	fe     *FEnc
-	Cover  bool // satisfiability check (expect sat)
-	NParts int
+	Name    string
+	Kind    string
+	Props   []string
+	Func    string
+	Pos     string
+	Desc    string
+	NFacts  int
+	Goal    string
+	Show    []string
+	fe      *FEnc
+	Cover   bool // satisfiability check (expect sat)
+	Claimed bool // safety obligation inside a function that is under a no-panic contract as a whole
+	NParts  int
 
 	Status string // discharged refuted undecided
 	Solver string
@@ -687,6 +688,9 @@ func (e *FEnc) load(st *State, p *Ptr) *Val {
 				t := fmt.Sprintf("(select %s %s)", e.heapGet(st, hn, hs), p.Ref)
 				ft := sty.Field(i).Type()
 				e.typeFacts(t, ft, 1)
+				if len(e.eng.cs.NonNilFields) > 0 && e.eng.cs.NonNilFields[types.TypeString(p.Elem, nil)+"."+sty.Field(i).Name()] {
+					e.fact(not(eq(t, e.nilOf(e.sortOf(ft)))))
+				}
 				return e.project(&Val{Ty: ft, Sort: e.sortOf(ft), T: t}, p.Path[1:])
 			}
 			v := &Val{Ty: p.Elem, Sort: e.sortOf(p.Elem), Fields: make([]*Val, sty.NumFields())}
@@ -1074,6 +1078,16 @@ func (e *FEnc) run() {
 	for _, p := range fn.Params {
 		v := e.newVal(p.Type(), "p_"+mangle(p.Name()))
 		e.vals[p] = v
+	}
+	for _, p := range fn.Params {
+		ts := types.TypeString(p.Type(), nil)
+		for _, nn := range e.eng.cs.NonNilParams {
+			if ts == nn {
+				if v := e.vals[p]; v != nil && v.T != "" {
+					e.fact(not(eq(v.T, e.nilOf(v.Sort))))
+				}
+			}
+		}
 	}
 	for _, fv := range fn.FreeVars {
 		v := e.newVal(fv.Type(), "fv_"+mangle(fv.Name()))
